@@ -1,6 +1,7 @@
 import TTProofs.Lemmas.C11_Assign
 import TTProofs.Lemmas.C11_Checks
 import TTModel.C11_Table
+import TTGen.C11_Setattr
 /-!
 # C11 — cached values never go stale; a parameter update never raises
 
@@ -123,6 +124,19 @@ theorem all_handlers_total :
     ∀ c ∈ TTGen.C11_Wiring.classes, ∀ k ∈ [Kind.param, Kind.model],
       (c.handler k).recognised = true ∧ (c.canReceive k = true → (c.handler k).tail ≠ .raise) := by
   decide
+
+/-- **setattr_registers.**  `Parametric.__setattr__` as generated from the source: whatever the name and
+whether or not it is already present in the instance dictionary (a `None` placeholder, a replaced parameter),
+assigning an `AbstractParameter` files it under `_parameters` and appends the owner to its listener list,
+assigning a `Model` does the same with `_models` / model listeners, the placeholder is removed from the
+instance dictionary, and nothing is registered for any other value; all six cases are present. -/
+theorem setattr_registers :
+    TTGen.C11_Setattr.translatorOk = true ∧
+    (∀ c ∈ TTGen.C11_Setattr.table, c.registers = true) ∧
+    (∀ k : VKind, ∀ d : Bool, ∃ c ∈ TTGen.C11_Setattr.table, c.kind = k ∧ c.inDict = d) := by
+  refine ⟨by decide, by decide, ?_⟩
+  intro k d
+  cases k <;> cases d <;> decide
 
 /-- **torchtree_no_stale.**  Any object graph built from the covered classes — as extracted from
 real objects by the harness: it passes the executable well-formedness and conformance checks —
